@@ -228,6 +228,30 @@ func (h *Host) Set(target string, r *Route) {
 	h.mu.Unlock()
 }
 
+// Gated makes the route of `target` wait for `gate` before answering; reports whether the route exists.
+func (h *Host) Gated(target string, gate chan struct{}) bool {
+	h.mu.Lock()
+	defer h.mu.Unlock()
+	r := h.routes[target]
+	if r == nil {
+		return false
+	}
+	copy_ := *r
+	copy_.Gate = gate
+	h.routes[target] = &copy_
+	return true
+}
+
+func (h *Host) Ungate(target string) {
+	h.mu.Lock()
+	defer h.mu.Unlock()
+	if r := h.routes[target]; r != nil {
+		copy_ := *r
+		copy_.Gate = nil
+		h.routes[target] = &copy_
+	}
+}
+
 func (h *Host) URL(target string) string { return "https://" + h.Addr + target }
 
 func (h *Host) serve() {
